@@ -25,21 +25,21 @@ var clusterReal = []string{"weed/server MasterServer (router, gRPC service, Assi
 var clusterStub = []string{"TCP: in-memory bufconn listeners and in-process HTTP round trips", "raft: RaftStub", "partitions are per destination, not per pair"}
 
 func init() {
-	props["C14"] = &propCfg{Engine: "cluster", Variants: []string{""}, Quick: 400, Thorough: 30000, Chunk: 20, QuickWall: 110, ThorWall: 1500,
+	props["C14"] = &propCfg{Engine: "cluster", Variants: []string{""}, Quick: 900, Thorough: 30000, Chunk: 20, QuickWall: 110, ThorWall: 1500,
 		Rule:  "each run = real master + 1-3 real volume servers with one replicated volume holding garbage above or below the threshold; the master's own Topology.Vacuum runs while every VacuumVolume{Check,Compact,Commit,Cleanup} RPC parks on the simulated network; per (replica, phase) the plan chooses ok / request dropped / response lost / delayed past the phase time-out, and the order in which parked messages are released; client uploads are attempted during and after the round; oracle: commit only to replicas whose compaction was acknowledged, every key reads identically from every replica afterwards and live blobs are intact, the volume is writable three heartbeats after the round exactly if it was before; two runs in three inject faults; non-trivial = a round ran; distinct = distinct abstract traces",
 		Real:  clusterReal, Stub: clusterStub,
 		Assume: []string{"one volume per layout (growth count 1), so the layout's map iteration order cannot matter", "writability is compared after three heartbeat pulses (bounded liveness), not at the instant the round returns"}}
 }
 
 func init() {
-	props["C40"] = &propCfg{Engine: "cluster", Variants: []string{""}, Quick: 800, Thorough: 24000, Chunk: 20, QuickWall: 110, ThorWall: 1500,
+	props["C40"] = &propCfg{Engine: "cluster", Variants: []string{""}, Quick: 1600, Thorough: 24000, Chunk: 20, QuickWall: 110, ThorWall: 1500,
 		Rule:  "each run = real master + 2-3 real volume servers, one volume with replication 001/010/002/011/020; 3-10 uploads (text that the client library gzips, incompressible bytes, already-compressed names, no name/mime, json; pairs; ttl; client ts; manifest flag), overwrites and deletes sent to the primary with the real client library; every HTTP POST/DELETE parks on the simulated network and the plan picks the release order and, for replica requests in odd runs, drop / lost response / delay per message (the library's retries run on the fake clock); after every operation reported successful each replica is asked over HTTP (status, headers, decoded body) and over gRPC (needle cookie, stored last-modified, checksum, ttl) and all answers must be equal; non-trivial = a replica fault fired or two messages were pending at once; distinct = distinct abstract traces",
 		Real:  clusterReal, Stub: clusterStub,
 		Assume: []string{"nothing is demanded for operations the client saw fail", "one bubble clock: all servers stamp with the same clock"}}
 }
 
 func init() {
-	props["C34"] = &propCfg{Engine: "cluster", Variants: []string{""}, Quick: 600, Thorough: 40000, Chunk: 25, QuickWall: 110, ThorWall: 1500,
+	props["C34"] = &propCfg{Engine: "cluster", Variants: []string{""}, Quick: 1200, Thorough: 40000, Chunk: 25, QuickWall: 110, ThorWall: 1500,
 		Rule:  "each run = real master + one real volume server with a write signing key (expiry 2-60 s) and, in half the runs, a read key; the master issues tokens in Assign; uploads, deletes and reads are sent after a plan-chosen fake delay straddling the expiry (E-2..E+3 s and random), with the master's token, a fresh token, a token for another file, the sub-file suffix form, no token, a token signed with another key, alg=none, or garbage; oracle: accepted iff unexpired at the server's check (the expiry second itself may go either way), signed with the configured key and naming the target file; a rejected request leaves the stored blob unchanged, an accepted one takes effect; non-trivial = the fake clock moved; distinct = distinct abstract traces",
 		Real:  clusterReal, Stub: clusterStub,
 		Assume: []string{"token-shape enumeration (algorithms, malformed tokens) is input generation and only sampled", "one bubble clock: no skew between master and volume server; skew is not emulated"}}
@@ -60,14 +60,14 @@ func init() {
 }
 
 func init() {
-	props["C37"] = &propCfg{Engine: "cluster", Variants: []string{""}, Quick: 500, Thorough: 40000, Chunk: 25, QuickWall: 110, ThorWall: 1500,
+	props["C37"] = &propCfg{Engine: "cluster", Variants: []string{""}, Quick: 900, Thorough: 40000, Chunk: 25, QuickWall: 110, ThorWall: 1500,
 		Rule:  "each run = a source volume on a real volume server receiving uploads, overwrites and deletes over HTTP (keys first written in ascending or arbitrary order) and compaction+commit through the vacuum RPCs, interleaved with backup runs that follow command/backup.go (sync status, local compaction when the source revision moved, discard when the local copy is longer, IncrementalBackup) on a local volume pulling through the real VolumeIncrementalCopy stream on the simulated network; the stream's receive side is gated so that source writes are released while the copy stream is open; after every backup run that had no write during it, every key read from the backup equals the source's live content; non-trivial = a source compaction or a write during an open stream; distinct = distinct abstract traces",
 		Real:  clusterReal, Stub: append([]string{"the backup command's steps are reproduced by the harness (runBackup itself reads command-line flags)"}, clusterStub...),
 		Assume: []string{"stream faults are not injected (the statement promises no fault tolerance there)", "a backup run during which the source was written is only required to converge with the next run"}}
 }
 
 func init() {
-	props["C25"] = &propCfg{Engine: "cluster", Variants: []string{""}, Quick: 200, Thorough: 12000, Chunk: 10, QuickWall: 110, ThorWall: 1500,
+	props["C25"] = &propCfg{Engine: "cluster", Variants: []string{""}, Quick: 450, Thorough: 12000, Chunk: 10, QuickWall: 160, ThorWall: 1500,
 		Rule:  "each run = real master + volume server + filer (HTTP handlers, leveldb2 store) on the simulated network; 3-9 PUT / multipart POST / append requests on three paths with bodies around the inline limit (0/64/1024) and the 1 MB chunk boundary (1 MB -1/0/+1, 2 MB), each followed by a GET through the filer; odd runs inject: a request body that fails after k bytes (first bytes, on the chunk boundary, last byte, random), dropped Assign RPCs, dropped or response-lost chunk uploads (retries on the fake clock); oracle: success => GET returns exactly the body (append: old||new); a request whose body failed is never reported successful; after a reported failure the file is unchanged/absent (or, without a body failure, completely written), never truncated; non-trivial = a fault fired; distinct = distinct abstract traces",
 		Real:  append([]string{"weed/server FilerServer (autochunk write handlers, read handler, gRPC service), weed/filer core on leveldb2"}, clusterReal...), Stub: clusterStub,
 		Assume: []string{"chunk sizes are whole megabytes in this version (maxMB); only 1 MB chunks are used", "one volume server, replication 000"}}
